@@ -322,4 +322,4 @@ pub struct M<'x, 'd> {
 
 #[path = "opmutate_rules.rs"]
 mod rules;
-pub use rules::{mutate, mutate_with, MUTATORS};
+pub use rules::{mutate, mutate_neutral, mutate_with, MUTATORS};
